@@ -1,14 +1,15 @@
 (* Props/C26.v — A persisted database restores identical results and valid memos.
    Statements only; proofs in Persist/ProofsRoundtrip.v, Persist/ProofsFlatten.v; concrete runs
-   (one positive, three refutations replayed on the real crate) in Persist/Examples.v. *)
+   (positive ones, and two refutations replayed on the real crate) in Persist/Examples.v. *)
 From Salsa Require Import Base.
 From Salsa.Kern Require Import CoreK.
 From Salsa.Persist Require Import Model Spec ProofsRoundtrip ProofsFlatten Statement Examples.
 
 (* Round trip, for ALL states: deserialising the serialised database into a fresh one keeps the
    runtime revisions, every input slot, and for every persisted function every memo that has a
-   value — value, verified_at, changed_at, durability, untracked flag — with the origin edges
-   replaced by their flattening; nothing else survives (memos of non-persisted functions,
+   value — value, verified_at, changed_at, durability — with the origin edges replaced by their
+   flattening and the origin untracked if it was, or if flattening expanded an untracked
+   dependency (flat_memo; fix e43c20c); nothing else survives (memos of non-persisted functions,
    value-less memos), and the rest is the state of a fresh database. *)
 Theorem C26_roundtrip : forall (pfam : N -> bool) (fuel : nat) (s ext : db) (lru0 : N -> lru_state),
   let s' := restore (Model.snapshot pfam fuel s) ext lru0 in
@@ -72,6 +73,68 @@ Check C26_flatten_sound : forall (pfam : N -> bool) (mm : qkey -> option memo) (
   (forall x, In x (flatten pfam mm fuel edges) -> ok_edge mm din r x) ->
   forall e, In e edges -> ok_edge mm din r e.
 Print Assumptions C26_flatten_sound.
+
+(* The fix e43c20c, for ALL memo tables: a memo that the snapshot serialises with a TRACKED
+   origin lost no untracked dependency (and was tracked itself) ... *)
+Theorem C26_snapshot_tracked_loses_nothing :
+  forall (pfam : N -> bool) (mm : qkey -> option memo) (fuel : nat) q m',
+  snap_memo pfam mm fuel q = Some m' -> m_untracked m' = false ->
+  exists m, mm q = Some m /\ m_untracked m = false /\
+            lost_untracked pfam mm fuel (m_edges m) = false /\
+            m_edges m' = flatten pfam mm fuel (m_edges m) /\
+            m_val m' = m_val m /\ m_verified m' = m_verified m /\ m_changed m' = m_changed m /\
+            m_dur m' = m_dur m.
+Proof. exact snap_memo_tracked. Qed.
+Check C26_snapshot_tracked_loses_nothing :
+  forall (pfam : N -> bool) (mm : qkey -> option memo) (fuel : nat) q m',
+  snap_memo pfam mm fuel q = Some m' -> m_untracked m' = false ->
+  exists m, mm q = Some m /\ m_untracked m = false /\
+            lost_untracked pfam mm fuel (m_edges m) = false /\
+            m_edges m' = flatten pfam mm fuel (m_edges m) /\
+            m_val m' = m_val m /\ m_verified m' = m_verified m /\ m_changed m' = m_changed m /\
+            m_dur m' = m_dur m.
+Print Assumptions C26_snapshot_tracked_loses_nothing.
+
+(* ... hence the flattening lemma WITHOUT side condition for the memos of a real snapshot: if a
+   memo is serialised as tracked and none of its serialised edges changed since r, then the
+   original memo was tracked and none of its original edges has a changed recorded support. *)
+Theorem C26_flatten_sound_snapshot :
+  forall (pfam : N -> bool) (mm : qkey -> option memo) (rank : qkey -> nat),
+  (forall g m c, mm g = Some m -> In (EQ c) (m_edges m) -> (rank c < rank g)%nat) ->
+  (forall g m c, mm g = Some m -> In (EQ c) (m_edges m) -> mm c <> None) ->
+  forall (din : ikey -> infield) (r : rev) (fuel : nat) q m',
+  (forall p, (S (rank p) < fuel)%nat) ->
+  snap_memo pfam mm fuel q = Some m' -> m_untracked m' = false ->
+  (forall x, In x (m_edges m') -> ok_edge mm din r x) ->
+  exists m, mm q = Some m /\ m_untracked m = false /\ forall e, In e (m_edges m) -> ok_edge mm din r e.
+Proof. exact flatten_sound_snapshot. Qed.
+Check C26_flatten_sound_snapshot :
+  forall (pfam : N -> bool) (mm : qkey -> option memo) (rank : qkey -> nat),
+  (forall g m c, mm g = Some m -> In (EQ c) (m_edges m) -> (rank c < rank g)%nat) ->
+  (forall g m c, mm g = Some m -> In (EQ c) (m_edges m) -> mm c <> None) ->
+  forall (din : ikey -> infield) (r : rev) (fuel : nat) q m',
+  (forall p, (S (rank p) < fuel)%nat) ->
+  snap_memo pfam mm fuel q = Some m' -> m_untracked m' = false ->
+  (forall x, In x (m_edges m') -> ok_edge mm din r x) ->
+  exists m, mm q = Some m /\ m_untracked m = false /\ forall e, In e (m_edges m) -> ok_edge mm din r e.
+Print Assumptions C26_flatten_sound_snapshot.
+
+(* Serialised origins consist of directly serialised edges (input fields, persisted functions)
+   only, so serialising a restored database again expands nothing and can never lose an
+   untracked dependency — for all memo tables and fuels. *)
+Theorem C26_reserialise_loses_nothing :
+  forall (pfam : N -> bool) (mm mm' : qkey -> option memo) (fuel fuel' : nat) (edges : list edge),
+  all_persistable pfam (flatten pfam mm fuel edges) /\
+  lost_untracked pfam mm' fuel' (flatten pfam mm fuel edges) = false.
+Proof.
+  intros pfam mm mm' fuel fuel' edges.
+  split; [exact (flatten_persistable pfam mm fuel edges) | exact (reserialise_loses_nothing pfam mm mm' fuel fuel' edges)].
+Qed.
+Check C26_reserialise_loses_nothing :
+  forall (pfam : N -> bool) (mm mm' : qkey -> option memo) (fuel fuel' : nat) (edges : list edge),
+  all_persistable pfam (flatten pfam mm fuel edges) /\
+  lost_untracked pfam mm' fuel' (flatten pfam mm fuel edges) = false.
+Print Assumptions C26_reserialise_loses_nothing.
 
 (* Reuse, same revision — for all programs and states: a restored memo that was verified in the
    revision of the snapshot is returned by the first request with no event at all. *)
@@ -145,34 +208,32 @@ Check C26_example_partial_query :
    evalo prog_pq FUEL (snap_of (ps_db (fst r))) (0, 0) = Some 8).
 Print Assumptions C26_example_partial_query.
 
+(* the former stale-value witness (a persisted function over a NON-persisted function with an
+   untracked read; restore, external change, new revision): with fix e43c20c the restored memo is
+   untracked, is re-executed, and the result is the from-scratch one; in the revision of the
+   snapshot it is still returned without executing *)
+Theorem C26_example_flattened_untracked_fixed :
+  (let r := run prog_f2 [] nolru ops_f2 in
+   snd r = [POk 0; POk 0; POk 0; POk 0; POk 0; POk 1] /\
+   evalo prog_f2 FUEL (snap_of (ps_db (fst r))) (0, 0) = Some 1) /\
+  (let r := run prog_f2 [] nolru [OGet (0, 0); OSnapshot; ORestore; OGet (0, 0)] in
+   snd r = [POk 0; POk 0; POk 0; POk 0] /\ d_log (ps_db (fst r)) = [EvExec (3, 0); EvExec (0, 0)]).
+Proof.
+  split; [split; [exact (proj1 ex_f2_fixed) | exact (proj1 (proj2 ex_f2_fixed))] | exact ex_f2_same_revision].
+Qed.
+Check C26_example_flattened_untracked_fixed :
+  (let r := run prog_f2 [] nolru ops_f2 in
+   snd r = [POk 0; POk 0; POk 0; POk 0; POk 0; POk 1] /\
+   evalo prog_f2 FUEL (snap_of (ps_db (fst r))) (0, 0) = Some 1) /\
+  (let r := run prog_f2 [] nolru [OGet (0, 0); OSnapshot; ORestore; OGet (0, 0)] in
+   snd r = [POk 0; POk 0; POk 0; POk 0] /\ d_log (ps_db (fst r)) = [EvExec (3, 0); EvExec (0, 0)]).
+Print Assumptions C26_example_flattened_untracked_fixed.
+
 (* ------------------------------------------------------------------------------------
    REFUTATIONS of the unrestricted property on the faithful model (each witness was replayed
    on the real crate with the same outcome, see checks/notes/C26.txt):
 
-   1. results: a persisted function that depends on a NON-persisted function with an untracked
-      read.  Flattening replaces the dependency by its (here: no) leaves and forgets that it was
-      untracked; after restore, a change of the external state followed by a new revision, the
-      restored memo is validated and the stale value returned. *)
-Theorem C26_results_refuted_flattened_untracked :
-  exists (prog : qkey -> body) (ops : list op),
-    let r := run prog [] nolru ops in
-    exists v w, last (snd r) PFuel = POk v /\
-                evalo prog FUEL (snap_of (ps_db (fst r))) (0, 0) = Some w /\ v <> w /\
-                last ops OEvict = OGet (0, 0).
-Proof.
-  exists prog_f2, ops_f2. cbv zeta. exists 0, 1.
-  destruct ex_f2 as (A & B & _). rewrite A. split; [reflexivity|]. split; [exact B|].
-  split; [discriminate | reflexivity].
-Qed.
-Check C26_results_refuted_flattened_untracked :
-  exists (prog : qkey -> body) (ops : list op),
-    let r := run prog [] nolru ops in
-    exists v w, last (snd r) PFuel = POk v /\
-                evalo prog FUEL (snap_of (ps_db (fst r))) (0, 0) = Some w /\ v <> w /\
-                last ops OEvict = OGet (0, 0).
-Print Assumptions C26_results_refuted_flattened_untracked.
-
-(* 2. results: a restored memo whose origin keeps an edge to a persisted function that has not
+   1. results: a restored memo whose origin keeps an edge to a persisted function that has not
       been called in the new database: verifying it reaches the function ingredient through its
       dynamic entry before its view caster was initialised, and panics. *)
 Theorem C26_results_refuted_uninitialised_ingredient :
@@ -191,7 +252,7 @@ Check C26_results_refuted_uninitialised_ingredient :
     evalo prog FUEL (snap_of (ps_db (fst r))) (0, 0) = Some 1 /\ last ops OEvict = OGet (0, 0).
 Print Assumptions C26_results_refuted_uninitialised_ingredient.
 
-(* 3. reuse: a persisted dependency whose value was evicted (LRU) when the snapshot was taken is
+(* 2. reuse: a persisted dependency whose value was evicted (LRU) when the snapshot was taken is
       not serialised at all; the restored caller, none of whose inputs ever changed, is executed
       again — the same history without snapshot/restore validates it. *)
 Theorem C26_reuse_refuted_evicted_dependency :
@@ -216,6 +277,6 @@ Check C26_reuse_refuted_evicted_dependency :
     last ops OEvict = OGet (0, 0) /\ last twin OEvict = OGet (0, 0).
 Print Assumptions C26_reuse_refuted_evicted_dependency.
 
-(* the positive statement outside the known classes, kept visible (NOT proved): *)
+(* the positive statement outside the known class, kept visible (NOT proved): *)
 Check C26_results_full_statement : Prop.
 Print C26_results_full_statement.
